@@ -51,7 +51,7 @@ def faults(raw, fresh):
         for rn in rd:
             if U:
                 add(f"sensor {k}.{rn} depends on a control", "filter", lambda r, k=k, rn=rn: r["sensors"][k].__setitem__(rn, M.add(r["sensors"][k][rn], M.var(U[0]))))
-            add(f"sensor {k}.{rn} depends on an undeclared symbol", "filter", lambda r, k=k, rn=rn: r["sensors"][k].__setitem__(rn, M.mul(r["sensors"][k][rn], M.var(fresh))))
+            add(f"sensor {k}.{rn} depends on an undeclared symbol", "filter", lambda r, k=k, rn=rn: r["sensors"][k].__setitem__(rn, M.add(r["sensors"][k][rn], M.var(fresh))))  # added, not multiplied: a reading that is identically 0 would swallow a factor
             add(f"noise missing for reading {k}.{rn}", "filter", lambda r, k=k, rn=rn: r["sensor_noise"][k].pop(rn))
             add(f"noise keyed by an unknown reading instead of {k}.{rn}", "filter", lambda r, k=k, rn=rn: r["sensor_noise"][k].__setitem__("zz_unknown", r["sensor_noise"][k].pop(rn)))
         add(f"noise for an unknown reading of {k}", "filter", lambda r, k=k: r["sensor_noise"][k].__setitem__("zz_unknown", 0.5))
